@@ -25,7 +25,8 @@ def _stub_amp(n):
     i = np.arange(n)
     return ((i * 7 + 3) % 11).astype(float)
 
-INT_RANGE = {'int16': (0, 30000), 'int32': (0, 2000000000), 'int64': (0, 1000), 'uint16': (32768, 30000), 'uint8': (128, 120)}
+INT_RANGE = {'int16': (0, 30000), 'int32': (0, 2000000000), 'int64': (0, 1000), 'uint16': (32768, 30000), 'uint8': (128, 120),
+             '>i2': (0, 30000), '>u2': (32768, 30000), '>i4': (0, 2000000000)}       # byte-swapped recordings (np.fromfile(dtype='>i2'))
 
 def _signal(c):
     """(array handed to the implementation, its exact values as float64): integer-typed recordings use most of their type's range."""
@@ -115,7 +116,13 @@ def evaluate(ctx, cases):
         try:
             df = _impl(c)
         except Exception as e:
-            pre.append(dict(err=type(e).__name__ + ': ' + str(e)[:150])); continue
+            msg = type(e).__name__ + ': ' + str(e)[:150]
+            if c.get('pres') not in (None, 'array'):       # does the same recording as a plain array raise as well?
+                try:
+                    _impl(dict(c, pres='array')); msg = 'AssertionError: raises only when the samples arrive as %s (%s)' % (c['pres'], msg)
+                except Exception:
+                    pass
+            pre.append(dict(err=msg)); continue
         used = x if c['center'] == 'peak' else -x
         try:
             nc = c.get('n_cycles') or 3
